@@ -372,6 +372,9 @@ class ShimLock:
             raise RuntimeError(f"release unlocked lock; history {list(self.history)[-8:]}")
         self._locked = False
         self._owner = None
+        # a second point right after the unlock: "delayed just after leaving the critical section" is where
+        # check-then-act races manifest, and targeted holds can name it
+        self._s.point("lock.released")
 
     def locked(self):
         return self._locked
